@@ -321,28 +321,49 @@ def check_trace(tr, drv, max_frames=80, mask=None, detail=False):
     runs = cfg['run'] if isinstance(cfg['run'][0], list) else [cfg['run']]
     cyc = [[0] * cfg['n'] for _ in range(cfg['k'])]
     ci = 0
+    call_start = [0]
+
+    def wrap_T(ci, k):
+        """the argument of wrap_up_servers at the end of call ci, which returned after k events in total"""
+        r = runs[ci]
+        if r[0] == 'time':
+            return r[1]
+        if r[0] == 'cust':          # simulate_until_max_customers: previous_time
+            if k > call_start[0]:
+                return tr.frames[k - 1]['now']
+            return (tr.init['now'] if ci == 0 else now)
+        return None
+
+    def do_wrap(ci, k):
+        """call number ci returned after k events: its wrap-up changed the server statistics; model it from the current state.
+        -> False when a mismatch was recorded"""
+        T = wrap_T(ci, k)
+        if isinstance(T, int):
+            v = drv.ask(WRAP, sx.dump([ecfg, enc_state(prev, cfg, nxt, now if isinstance(now, int) else 0, cyc), T]))
+            outw = parse(v[1]) if v[0] == 'M' else [9]
+            if outw[0] == 0:
+                expw = norm(enc_state(ends[ci]['final'], cfg, nxt, now if isinstance(now, int) else 0, cyc))
+                dw = diff_fields(outw[1], expw, [], [])
+                relw = dw if mask is None else set(x for x in dw if x in mask or (x[0], '*') in mask or x[1] == '*')
+                if relw:
+                    res['mismatch'] = {'frame': k, 'what': 'wrap_up_servers', 'call': ci, 'T': T, 'fields': sorted(relw)[:12]}
+                    return False
+                res['wrapups'] = res.get('wrapups', 0) + 1
+                if dw:
+                    res['other'] += 1
+            else:
+                res['mismatch'] = {'frame': k, 'what': 'wrap_up_servers model error', 'call': ci, 'code': outw[:2]}
+                return False
+        return True
+
     for k, f in enumerate(tr.frames[:max_frames]):
         crossed = False
         while ci < len(ends) and ends[ci]['frames'] == k:
-            # call number ci returned after k events: its wrap-up changed the server statistics; model it from the current state
-            if runs[ci][0] == 'time':
-                v = drv.ask(WRAP, sx.dump([ecfg, enc_state(prev, cfg, nxt, now if isinstance(now, int) else 0, cyc), runs[ci][1]]))
-                outw = parse(v[1]) if v[0] == 'M' else [9]
-                if outw[0] == 0:
-                    expw = norm(enc_state(ends[ci]['final'], cfg, nxt, now if isinstance(now, int) else 0, cyc))
-                    dw = diff_fields(outw[1], expw, [], [])
-                    relw = dw if mask is None else set(x for x in dw if x in mask or (x[0], '*') in mask or x[1] == '*')
-                    if relw:
-                        res['mismatch'] = {'frame': k, 'what': 'wrap_up_servers', 'call': ci, 'fields': sorted(relw)[:12]}
-                        return res
-                    res['wrapups'] = res.get('wrapups', 0) + 1
-                    if dw:
-                        res['other'] += 1
-                else:
-                    res['mismatch'] = {'frame': k, 'what': 'wrap_up_servers model error', 'call': ci, 'code': outw}
-                    return res
+            if not do_wrap(ci, k):
+                return res
             prev = ends[ci]['final']
             ci += 1
+            call_start[0] = k
             crossed = True
         if crossed:
             # the next call re-enters the loop through find_next_active_node: take the event it chose
@@ -381,4 +402,28 @@ def check_trace(tr, drv, max_frames=80, mask=None, detail=False):
             res['other'] += 1
         res['frames'] += 1
         prev, nxt, now = f['snap'], f['next'], f['next_date']
+    # the calls that returned after the last compared event (normally: the end of the run)
+    if res['mismatch'] is None and res['frames'] == len(tr.frames):
+        while ci < len(ends) and ends[ci]['frames'] == len(tr.frames):
+            if not do_wrap(ci, len(tr.frames)):
+                return res
+            prev = ends[ci]['final']
+            ci += 1
+            call_start[0] = len(tr.frames)
+    # the run ended in an exception inside the next event: the model, run on that event with the draws consumed before the
+    # raise, must stop at an error site too
+    part = getattr(tr, 'partial', None)
+    if (part is not None and tr.exc is not None and res['frames'] == len(tr.frames) and ci == len(ends) and isinstance(now, int)
+            and not getattr(tr, 'stopped', False)):
+        try:
+            dr = draws_of(part['cev'])
+        except Exception:
+            dr = None
+        if dr is not None:
+            v = drv.ask(STEP, sx.dump([ecfg, enc_state(prev, cfg, nxt, now, cyc), dr]))
+            out = parse(v[1]) if v[0] == 'M' else [9]
+            res['exc'] = {'py': list(tr.exc[:2]), 'model': out[:2] if out[0] in (1, 2, 3) else [out[0]]}
+            if out[0] != 1:
+                res['mismatch'] = {'frame': len(tr.frames) + 1, 'what': 'implementation raised, model did not', 'label': part['label'],
+                                   'py': list(tr.exc), 'model': out[:1]}
     return res
